@@ -1,3 +1,3 @@
 #!/bin/sh
 # replays this counterexample against the real build
-cd /tmp/seedonly_C18e_24378 && VERIF_SCRIPT=/verif/replays/C18/VHarnessSendReloaded_73cff2e8_0/script.json VERIF_RAW_SALT=0 GOFLAGS=-mod=mod GOPROXY=off go test -vet=off -count=1 -overlay /verif/replays/C18/VHarnessSendReloaded_73cff2e8_0/overlay.json -run ^TestVerifReplay_VHarnessSendReloaded$ -v ./wallet
+cd /tmp/seedrepo_C18e && VERIF_SCRIPT=/verif/replays/C18/VHarnessSendReloaded_73cff2e8_0/script.json VERIF_RAW_SALT=0 GOFLAGS=-mod=mod GOPROXY=off go test -vet=off -count=1 -overlay /verif/replays/C18/VHarnessSendReloaded_73cff2e8_0/overlay.json -run ^TestVerifReplay_VHarnessSendReloaded$ -v ./wallet
